@@ -518,7 +518,8 @@ def run_bx_types(name, depth):
     r.obligations = j['checked'] + j['lookups']
     r.discharged = r.obligations - len(j['violations'])
     r.bounded = ('BOUNDED: every type built from {u8, u32, usize, bool, String, ()} by <= %d nested applications of Box<_>, Vec<_>, Option<_>, [_; 3], Box<[_]>, '
-                 '(_, u8), Result<_, String> (%d distinct types); five spellings per type for the table lookup' % (depth, j['distinct_types']))
+                 '(_, u8), Result<_, String>, plus 12 user-crate types (plain, generic, nested modules, and paths ending with the whole module path of String / Vec / Box / Option / Result) under one application '
+                 '(%d distinct types in all); five spellings per type for the table lookup' % (depth, j['distinct_types']))
     r.extra = {'evaluations': j['checked'] + j['lookups'], 'distinct_nontrivial': j['distinct_types'],
                'rule': 'one evaluation = one type whose recorded name is compared with its source tokens, or one table lookup under one spelling; distinct = distinct types',
                'samples': j['samples']}
